@@ -414,6 +414,11 @@ def run(R):
     if sp is not None:
         prep(sp)
         split_pad_rules(R, sp, "C05.merge")
+        # what "validly signed" / "verified" mean for the versions being merged (rules of C15 and C06, evaluated under this property)
+        from props.C15 import is_valid_rules
+        is_valid_rules(R, "C05.merge.pad")
+        from props.C06 import register_rules
+        register_rules(R, "C05.merge.regsem")
         push = BlockSink(lambda b: [blk["id"] for blk in b.blocks if not blk["cleanup"] and blk["term"]["k"] == "call" and callee_matches(blk["term"], ["alloc::vec::Vec::push"])
                                     and "SignedRegister" in b.locals.get(str(op_local(blk["term"]["args"][1])), "")], "collected_registers.push")
         R.gate("C05.merge.reg", sp, push, [[CallGuard(["ant_registers::register::SignedRegister::verify"], ("Ok",), "register.verify() is Ok")]],
